@@ -104,7 +104,8 @@ Endings == [k \in 1..(2 * Len(EndingStmts)) |-> "local z = 1\n" \o EndingStmts[(
 \* ---- trivia kinds
 \* (new kinds are appended: the indices of the first 14 are referred to by recorded replay files)
 Kinds == << " ", "\t", "\n", "\r\n", "  \n\n ", "--c\n", " --c\n", "--[[c]]", "--[=[ ]] ]=]", "--[[c\nd]] ", "", "--KEEP\n", "--[[ KEEP ]]", "--!x\n",
-            "--[==[c]==]", "--[===[ ]] ]=] ]==] ]===]", "--[==[c\nd]==] ", "--[=[c\nd]=]" >>
+            "--[==[c]==]", "--[===[ ]] ]=] ]==] ]===]", "--[==[c\nd]==] ", "--[=[c\nd]=]",
+            "--keep\n", "-- Copyright x\n", "--[[ Keep\n--!y ]]" >>
 NKinds == Len(Kinds)
 EofKinds == << "", "\n", "--c", "--[[c]]", " ", "\n\n" >>     \* after the last token: also a line comment without a final newline
 
